@@ -1,5 +1,5 @@
 """C05 - result models are as strict as the schema (E-Z: single-point corruptions must be rejected)."""
-from vlib import ezrun, gen, ezcheck, boot
+from vlib import ezrun, gen, ezcheck, boot, xh
 
 LEVEL = "translation_validation"
 
@@ -11,12 +11,20 @@ def run(rep, tier):
     rep.encoded(rtm.ResultTypesGenerator._parse_type_definition, rtm.ResultTypesGenerator._get_typename_values,
                 rf.parse_operation_field, rf.parse_operation_field_type, rf.parse_scalar_type, rf.parse_list_type,
                 rf.parse_directives, rf.generate_typename_annotation)
+    # second sentence of the property: declared type == image of the GraphQL type (E-X lemma on the real parse_operation_field), started first
+    import concurrent.futures as cf
+
+    pool = cf.ThreadPoolExecutor(1)
+    fut = pool.submit(xh.run_targets, ["harness.C05_image.check_image", "harness.C05_image.twin_nested_list_reached"], 600 if tier == "quick" else 1800)
     jobs = ezrun.corpus_jobs(tier, boot.seed())
     for j in jobs:
         j["modes"] = ["strict"]
         j["known"] = rep._known
     results = gen.pmap(ezcheck.analyze, jobs)
     progs, ops, nodes, gen_fail = ezrun.fold(rep, results, jobs, {"strict"})
+    xres = fut.result()
+    xh.fold(rep, "harness.C05_image", xres)
+    rep.coverage["image_lemma"] = [{"target": r.target.rsplit(".", 1)[-1], "status": r.status, "wall_s": round(r.wall, 1)} for r in xres]
     rep.coverage.update({
         "programs": progs, "operations": ops, "skeleton_nodes": nodes, "packages_not_analysed": gen_fail,
         "corruption_holes": sum(r["stats"]["holes"] for r in results),
@@ -27,7 +35,8 @@ def run(rep, tier):
     })
     rep.assume("exactly one corruption; the rest of the payload is conformant for the same runtime types",
                "an integral float (2.0) for Int is the same JSON kind (number) and not counted as a corruption",
-               "replay: real pydantic accepts AND graphql-core execute() cannot return the payload")
+               "replay: real pydantic accepts AND graphql-core execute() cannot return the payload",
+               "image lemma: CrossHair over 11 named kinds x wrapper stacks of depth <= 4 x {no directive, @skip, @include} on the real parse_operation_field; expected annotation written independently from the statement")
 
 
 def replay(data):
